@@ -1,6 +1,8 @@
 #ifndef AI_TOOLBOX_POMDP_FAST_INFORMED_BOUND_HEADER_FILE
 #define AI_TOOLBOX_POMDP_FAST_INFORMED_BOUND_HEADER_FILE
 
+#include <limits>
+
 #include <AIToolbox/Utils/Core.hpp>
 
 #include <AIToolbox/MDP/Utils.hpp>
@@ -193,9 +195,14 @@ namespace AIToolbox::POMDP {
 
             double max;
             using Tmp = std::remove_cvref_t<decltype(ir)>;
-            if constexpr(std::is_base_of_v<Eigen::SparseMatrixBase<Tmp>, Tmp>)
-                max = Eigen::Map<const Vector>(ir.valuePtr(), ir.size()).maxCoeff();
-            else
+            if constexpr(std::is_base_of_v<Eigen::SparseMatrixBase<Tmp>, Tmp>) {
+                // Only the stored entries have a value in memory; the
+                // entries that are not stored are zeros and count as well.
+                max = ir.nonZeros() < ir.size() ? 0.0 : -std::numeric_limits<double>::infinity();
+                for (Eigen::Index k = 0; k < ir.outerSize(); ++k)
+                    for (typename Tmp::InnerIterator it(ir, k); it; ++it)
+                        max = std::max(max, it.value());
+            } else
                 max = ir.maxCoeff();
 
             // Note that here we take the max over all IR: since we're
